@@ -93,10 +93,15 @@ class C10(Prop):
                 if it["kind"] != "valid-control" and rng.random() < 0.4:
                     # forged boots/time must not be adopted
                     it.setdefault("rewrite", {})["time"] = rng.choice([5, 99999, 2**31 - 1])
+                if rng.random() < 0.2:
+                    # the same forgery with long-form lengths around the security parameters
+                    it.setdefault("rewrite", {})["widths"] = gen.widths(rng, True)
                 items.append(it)
                 t += 1_000_000
             if rng.random() < 0.7:
                 items.append({"k": "genuine", "delay_ns": t})
+                if rng.random() < 0.2:
+                    items[-1]["rewrite"] = {"widths": gen.widths(rng, True)}
             scripts["%d:1" % opid] = {"replies": items}
         return {"flavour": rng.choice(["sync", "async"]), "agent": a, "sessions": [sess], "ops": ops, "scripts": scripts, "latency_ns": 1_000_001}
 
